@@ -125,6 +125,8 @@ func (a *caiAn) analyze(m *types.Func) *caiFnResult {
 			for f, v := range l.Bools {
 				if b, ok := v.(vBool); ok && b.Known {
 					p.LoopFlags[f.Name()] = fmt.Sprint(b.B)
+				} else if iv, ok := v.(vInt); ok && iv.L.IsConst() {
+					p.LoopFlags[f.Name()] = fmt.Sprint(iv.L.K)
 				} else {
 					p.LoopFlags[f.Name()] = "?"
 				}
